@@ -3,7 +3,7 @@
    operator of C02: the 6x6 block system assembled for an interior node is
    exactly "the six residual equations of the node's edges, with the six edge
    values as unknowns". *)
-From Coq Require Import ZArith Lia Bool Field.
+From Coq Require Import ZArith Lia Bool Field List.
 From V Require Import Base.Loops Base.Arr Base.FieldSig Base.Tactics.
 From V Require Import Gen.CoreBand Gen.CoreGS Model.FIT Proofs.BandSums Proofs.BandLDL.
 Local Open Scope Z_scope.
@@ -38,13 +38,209 @@ Section GSBlock.
       (kof hx) (kof hy) (kof hz) 0 0 iz iz (iz-1) (iz+1) iy iy (iy-1) (iy+1) ix
       (amat0, ex, ey, ez).
 
+  (* literal index arithmetic *)
+  Ltac zlit :=
+    repeat match goal with
+    | |- context [Z.add (Zpos ?a) (Z.mul (Zpos ?b) (Zpos ?c))] =>
+        let v := eval vm_compute in (Z.add (Zpos a) (Z.mul (Zpos b) (Zpos c))) in
+        change (Z.add (Zpos a) (Z.mul (Zpos b) (Zpos c))) with v
+    | |- context [Z.add Z0 (Z.mul (Zpos ?b) (Zpos ?c))] =>
+        let v := eval vm_compute in (Z.mul (Zpos b) (Zpos c)) in
+        change (Z.add Z0 (Z.mul (Zpos b) (Zpos c))) with v
+    | |- context [Z.add (Zpos ?a) (Z.mul (Zpos ?b) Z0)] =>
+        change (Z.add (Zpos a) (Z.mul (Zpos b) Z0)) with (Zpos a)
+    | |- context [Z.add Z0 (Z.mul (Zpos ?b) Z0)] =>
+        change (Z.add Z0 (Z.mul (Zpos b) Z0)) with Z0
+    | |- context [Z.mul (Zpos ?b) (Zpos ?c)] =>
+        let v := eval vm_compute in (Z.mul (Zpos b) (Zpos c)) in
+        change (Z.mul (Zpos b) (Zpos c)) with v
+    | |- context [Z.mul (Zpos ?b) Z0] => change (Z.mul (Zpos b) Z0) with Z0
+    end.
+
+  Ltac arr_eval :=
+    cbv beta iota zeta delta [upd1 upd1f upd3f fill1 arr_of_list nth Z.to_nat Pos.to_nat Pos.iter_op
+                              Nat.add Z.eqb Pos.eqb Z.ltb Z.compare Pos.compare
+                              Pos.compare_cont negb fst snd kof Zfold nfold].
+
+  Lemma four_nz : ((1 + 1) * (1 + 1))%F <> 0%F.
+  Proof.
+    intros H. apply two_nz.
+    assert (E : (1 + 1)%F = (((1 + 1) * (1 + 1)) / (1 + 1))%F) by (field; exact two_nz).
+    rewrite E, H. field. exact two_nz.
+  Qed.
+  Lemma one_nz : (1 : F)%F <> 0%F.
+  Proof. exact (Field_theory.F_1_neq_0 Fth). Qed.
+
+  Ltac side := first [ exact two_nz | exact four_nz | exact one_nz | apply hx_nz | apply hy_nz
+                     | apply hz_nz ].
+
+  (* evaluate the banded product row [i] of the assembled 6x6 system *)
+  Ltac lhs_eval i :=
+    unfold bandmul, Asym, sumZ;
+    let lo := eval vm_compute in (Z.max 0 (i - 5)) in
+    let hi := eval vm_compute in (Z.min 6 (i + 6)) in
+    change (Z.max 0 (i - 5)) with lo; change (Z.min 6 (i + 6)) with hi;
+    rewrite Zfold_0_6;
+    repeat match goal with
+    | |- context [Z.leb ?a ?b] =>
+        let v := eval vm_compute in (Z.leb a b) in change (Z.leb a b) with v
+    end;
+    cbv iota; zlit;
+    (* the normal form is computed by the tactic engine; the kernel re-checks the
+       step with the VM at Qed (its default conversion is pathologically slow on
+       the long let-chain of the generated block) *)
+    match goal with
+    | |- ?G =>
+        let G' := eval cbv beta iota zeta delta
+                    [gs_sys gauss_seidel_L4_call1
+                     upd1 upd1f upd3f fill1 arr_of_list nth Z.to_nat Pos.to_nat Pos.iter_op
+                     Nat.add Z.eqb Pos.eqb Z.ltb Z.compare Pos.compare
+                     Pos.compare_cont negb fst snd kof] in G in
+        cut G'; [ let H := fresh "H" in intro H; vm_cast_no_check H | ]
+    end.
+
+  Ltac rhs_eval :=
+    unfold A_x, A_y, A_z, curlT_x, curlT_y, curlT_z, u_x, u_y, u_z, Mf_x, Mf_y, Mf_z,
+      Me_x, Me_y, Me_z, curl_x, curl_y, curl_z, pm, blk_x, blk_y, blk_z;
+    repeat match goal with
+    | |- context [?a =? 0] => zb_false (a =? 0)
+    end;
+    cbn [orb]; zmax_norm; idx_norm; upd_simpl; flit.
+
+  Ltac row i := intros Hx Hy Hz; lhs_eval i; rhs_eval; field; repeat split; side.
+
+  Notation BX x ix iy iz := (blk_x x ix iy iz).
+  Notation BY x ix iy iz := (blk_y x ix iy iz).
+  Notation BZ x ix iy iz := (blk_z x ix iy iz).
+
   Lemma row0 amat0 x ix iy iz : 1 <= ix -> 1 <= iy -> 1 <= iz ->
     Fsub (bandmul 6 (fst (gs_sys amat0 ix iy iz)) x 0) (snd (gs_sys amat0 ix iy iz) 0)
-    = Fsub (A_x (blk_x x ix iy iz) (blk_y x ix iy iz) (blk_z x ix iy iz) eta_x zeta hx hy hz
+    = Fsub (A_x (BX x ix iy iz) (BY x ix iy iz) (BZ x ix iy iz) eta_x zeta hx hy hz
                 (ix-1) iy iz) (sx (ix-1) iy iz).
+  Proof. row 0. Qed.
+  Lemma row1 amat0 x ix iy iz : 1 <= ix -> 1 <= iy -> 1 <= iz ->
+    Fsub (bandmul 6 (fst (gs_sys amat0 ix iy iz)) x 1) (snd (gs_sys amat0 ix iy iz) 1)
+    = Fsub (A_x (BX x ix iy iz) (BY x ix iy iz) (BZ x ix iy iz) eta_x zeta hx hy hz
+                ix iy iz) (sx ix iy iz).
+  Proof. row 1. Qed.
+  Lemma row2 amat0 x ix iy iz : 1 <= ix -> 1 <= iy -> 1 <= iz ->
+    Fsub (bandmul 6 (fst (gs_sys amat0 ix iy iz)) x 2) (snd (gs_sys amat0 ix iy iz) 2)
+    = Fsub (A_y (BX x ix iy iz) (BY x ix iy iz) (BZ x ix iy iz) eta_y zeta hx hy hz
+                ix (iy-1) iz) (sy ix (iy-1) iz).
+  Proof. row 2. Qed.
+  Lemma row3 amat0 x ix iy iz : 1 <= ix -> 1 <= iy -> 1 <= iz ->
+    Fsub (bandmul 6 (fst (gs_sys amat0 ix iy iz)) x 3) (snd (gs_sys amat0 ix iy iz) 3)
+    = Fsub (A_y (BX x ix iy iz) (BY x ix iy iz) (BZ x ix iy iz) eta_y zeta hx hy hz
+                ix iy iz) (sy ix iy iz).
+  Proof. row 3. Qed.
+  Lemma row4 amat0 x ix iy iz : 1 <= ix -> 1 <= iy -> 1 <= iz ->
+    Fsub (bandmul 6 (fst (gs_sys amat0 ix iy iz)) x 4) (snd (gs_sys amat0 ix iy iz) 4)
+    = Fsub (A_z (BX x ix iy iz) (BY x ix iy iz) (BZ x ix iy iz) eta_z zeta hx hy hz
+                ix iy (iz-1)) (sz ix iy (iz-1)).
+  Proof. row 4. Qed.
+  Lemma row5 amat0 x ix iy iz : 1 <= ix -> 1 <= iy -> 1 <= iz ->
+    Fsub (bandmul 6 (fst (gs_sys amat0 ix iy iz)) x 5) (snd (gs_sys amat0 ix iy iz) 5)
+    = Fsub (A_z (BX x ix iy iz) (BY x ix iy iz) (BZ x ix iy iz) eta_z zeta hx hy hz
+                ix iy iz) (sz ix iy iz).
+  Proof. row 5. Qed.
+
+  (* ---- one block step = assemble, solve, write back -------------------- *)
+  Definition gs_args_L4 :=
+    gauss_seidel_L4 sx sy sz eta_x eta_y eta_z zeta hx hy hz nu lhx nx lhy ny lhz nz
+      (kof hx) (kof hy) (kof hz).
+
+  Definition new_ex (r : Z -> F) ix iy iz := upd3 (upd3 ex (ix-1) iy iz (r 0)) ix iy iz (r 1).
+  Definition new_ey (r : Z -> F) ix iy iz := upd3 (upd3 ey ix (iy-1) iz (r 2)) ix iy iz (r 3).
+  Definition new_ez (r : Z -> F) ix iy iz := upd3 (upd3 ez ix iy (iz-1) (r 4)) ix iy iz (r 5).
+
+  Lemma L4_step amat0 ix iy iz :
+    gs_args_L4 0 0 iz iz (iz-1) (iz+1) iy iy (iy-1) (iy+1) ix (amat0, ex, ey, ez)
+    = let sys := gs_sys amat0 ix iy iz in
+      let r := solve 6 (fst sys) (snd sys) in
+      (fst r, new_ex (snd r) ix iy iz, new_ey (snd r) ix iy iz, new_ez (snd r) ix iy iz).
   Proof.
-    intros Hx Hy Hz.
-    unfold gs_sys, gauss_seidel_L4_call1. cbv zeta. cbn [fst snd].
-    Show.
-  Abort.
+    cbv delta [gs_args_L4 gauss_seidel_L4 gs_sys gauss_seidel_L4_call1 new_ex new_ey new_ez].
+    cbv beta. reflexivity.
+  Qed.
+
+  (* consistency, all six rows at once: for ANY candidate values x of the six
+     edges, (block matrix) x - (block rhs) = (A e[x] - s) on the six edges *)
+  Definition edge_res (x : Z -> F) ix iy iz (k : Z) : F :=
+    let bx := blk_x x ix iy iz in let by_ := blk_y x ix iy iz in let bz := blk_z x ix iy iz in
+    if k =? 0 then Fsub (A_x bx by_ bz eta_x zeta hx hy hz (ix-1) iy iz) (sx (ix-1) iy iz)
+    else if k =? 1 then Fsub (A_x bx by_ bz eta_x zeta hx hy hz ix iy iz) (sx ix iy iz)
+    else if k =? 2 then Fsub (A_y bx by_ bz eta_y zeta hx hy hz ix (iy-1) iz) (sy ix (iy-1) iz)
+    else if k =? 3 then Fsub (A_y bx by_ bz eta_y zeta hx hy hz ix iy iz) (sy ix iy iz)
+    else if k =? 4 then Fsub (A_z bx by_ bz eta_z zeta hx hy hz ix iy (iz-1)) (sz ix iy (iz-1))
+    else Fsub (A_z bx by_ bz eta_z zeta hx hy hz ix iy iz) (sz ix iy iz).
+
+  Theorem gs_block_consistent amat0 x ix iy iz k :
+    1 <= ix -> 1 <= iy -> 1 <= iz -> 0 <= k < 6 ->
+    Fsub (bandmul 6 (fst (gs_sys amat0 ix iy iz)) x k) (snd (gs_sys amat0 ix iy iz) k)
+    = edge_res x ix iy iz k.
+  Proof.
+    intros Hx Hy Hz Hk. unfold edge_res. cbv zeta.
+    assert (C : k = 0 \/ k = 1 \/ k = 2 \/ k = 3 \/ k = 4 \/ k = 5) by lia.
+    destruct C as [E|[E|[E|[E|[E|E]]]]]; subst k; cbn [Z.eqb Pos.eqb].
+    - now apply row0.
+    - now apply row1.
+    - now apply row2.
+    - now apply row3.
+    - now apply row4.
+    - now apply row5.
+  Qed.
+
+  Lemma Fsub_zero (a b : F) : Fsub a b = 0%F <-> a = b.
+  Proof.
+    split; intros H.
+    - assert (E : a = (Fsub a b + b)%F) by ring. rewrite E, H. ring.
+    - subst. ring.
+  Qed.
+
+  (* after the block step the six equations of the block hold exactly *)
+  Theorem gs_block_exact amat0 ix iy iz :
+    1 <= ix -> 1 <= iy -> 1 <= iz ->
+    let sys := gs_sys amat0 ix iy iz in
+    (forall j, 0 <= j < 6 -> pivot 6 (fst sys) j <> 0%F) ->
+    forall k, 0 <= k < 6 -> edge_res (snd (solve 6 (fst sys) (snd sys))) ix iy iz k = 0%F.
+  Proof.
+    intros Hx Hy Hz sys Hpiv k Hk.
+    rewrite <- (gs_block_consistent amat0 _ ix iy iz k Hx Hy Hz Hk).
+    apply Fsub_zero. fold sys.
+    apply (solve_correct Fth 6 (fst sys) (snd sys) ltac:(lia) Hpiv k Hk).
+  Qed.
+
+  (* a field whose six block equations already hold is left unchanged *)
+  Definition cur (ix iy iz : Z) : Z -> F := fun k =>
+    if k =? 0 then ex (ix-1) iy iz else if k =? 1 then ex ix iy iz
+    else if k =? 2 then ey ix (iy-1) iz else if k =? 3 then ey ix iy iz
+    else if k =? 4 then ez ix iy (iz-1) else ez ix iy iz.
+
+  Theorem gs_block_fixed_point amat0 ix iy iz :
+    1 <= ix -> 1 <= iy -> 1 <= iz ->
+    let sys := gs_sys amat0 ix iy iz in
+    (forall j, 0 <= j < 6 -> pivot 6 (fst sys) j <> 0%F) ->
+    (forall k, 0 <= k < 6 -> edge_res (cur ix iy iz) ix iy iz k = 0%F) ->
+    forall k, 0 <= k < 6 -> snd (solve 6 (fst sys) (snd sys)) k = cur ix iy iz k.
+  Proof.
+    intros Hx Hy Hz sys Hpiv Hres.
+    apply (solve_unique Fth 6 (fst sys) (snd sys) ltac:(lia) Hpiv (cur ix iy iz)).
+    intros k Hk. apply Fsub_zero.
+    unfold sys. rewrite (gs_block_consistent amat0 _ ix iy iz k Hx Hy Hz Hk).
+    apply Hres; assumption.
+  Qed.
+
+  (* frame: the step writes the six edges attached to the node and nothing else;
+     in particular no tangential boundary edge (1 <= iy < ny, ... are interior) *)
+  Theorem gs_block_frame (r : Z -> F) ix iy iz i j k :
+    (new_ex r ix iy iz i j k = ex i j k \/ (j = iy /\ k = iz /\ (i = ix - 1 \/ i = ix))) /\
+    (new_ey r ix iy iz i j k = ey i j k \/ (i = ix /\ k = iz /\ (j = iy - 1 \/ j = iy))) /\
+    (new_ez r ix iy iz i j k = ez i j k \/ (i = ix /\ j = iy /\ (k = iz - 1 \/ k = iz))).
+  Proof.
+    unfold new_ex, new_ey, new_ez, upd3.
+    repeat split;
+      repeat match goal with
+      | |- context [?a =? ?b] => destruct (Z.eqb_spec a b)
+      end; cbn [andb]; try (left; reflexivity); right; lia.
+  Qed.
 End GSBlock.
